@@ -38,7 +38,8 @@ vars == <<stk, fin, jd, fam>>
 \* a vocabulary: bounds, names offered, index tokens offered for variables / generated axes, integer
 \* exponent literals, brackets, enabled rule-breaking constructors, token corruptions, extra styles
 Fam(ml, mo, ms, v, n, f, t, g, e, w, m, c, s) ==
-  [ML |-> ml, MO |-> mo, MS |-> ms, V |-> v, N |-> n, F |-> f, T |-> t, G |-> g, E |-> e, W |-> w, M |-> m, C |-> c, S |-> s]
+  [ML |-> ml, MO |-> mo, MS |-> ms, V |-> v, N |-> n, F |-> f, T |-> t, G |-> g, E |-> e, W |-> w, M |-> m, C |-> c, S |-> s,
+   VO |-> FALSE]      \* VO: derive only trees that follow the documented rules (deep valid trees by random walks)
 MaxLeaves == Fams[fam].ML
 MaxOps == Fams[fam].MO
 MaxStack == Fams[fam].MS
@@ -52,6 +53,7 @@ Wraps == Fams[fam].W
 Muts == Fams[fam].M
 Cors == Fams[fam].C
 Styles == Fams[fam].S
+ValidOnly == Fams[fam].VO
 
 \* ================================================================== part 1: the algorithm
 XAt(a, idx) == a.v[Flat(idx, a.sh) + 1]
@@ -227,9 +229,10 @@ RECURSIVE SumField(_, _)
 SumField(f, n) == IF n = 0 THEN 0 ELSE f[n] + SumField(f, n - 1)
 NL == SumField([p \in 1..L |-> stk[p].nl], L)
 NO == SumField([p \in 1..L |-> stk[p].no], L)
-Push(x) == stk' = Append(stk, x)
-Rep1(x) == stk' = Append(SubSeq(stk, 1, L - 1), x)
-Rep2(x) == stk' = Append(SubSeq(stk, 1, L - 2), x)
+Admit(x) == ValidOnly => Chk(x.e).why = ""
+Push(x) == stk' = Append(stk, x) /\ Admit(x)
+Rep1(x) == stk' = Append(SubSeq(stk, 1, L - 1), x) /\ Admit(x)
+Rep2(x) == stk' = Append(SubSeq(stk, 1, L - 2), x) /\ Admit(x)
 Open == ~fin.done
 CanLeaf == Open /\ NL < MaxLeaves /\ L < MaxStack
 CanOp == Open /\ NO < MaxOps
@@ -327,9 +330,11 @@ Refinish(j, e, f) ==
   ELSE [j EXCEPT !.case.t = Corrupt(f.ck, Render(e, 0), f.cp), !.case.ok = "bad", !.case.why = f.ck,
                  !.case.fr = <<>>, !.case.arr = NoArr, !.case.rev = NoArr]
 
+\* random walks: only the first and the last position of a kind (keeps finishing from dominating the choice)
+FewIfLazy(S) == IF Lazy /\ S # {} THEN {CHOOSE p \in S : \A q \in S : p <= q, CHOOSE p \in S : \A q \in S : p >= q} ELSE S
 PFinish == /\ Open /\ L = 1
            /\ \/ \E st \in Styles : fin' = [done |-> TRUE, st |-> st, ck |-> "", cp |-> 0]
-              \/ \E k \in Cors : \E p \in CorPositions(k, CanonToks) : fin' = [done |-> TRUE, st |-> 0, ck |-> k, cp |-> p]
+              \/ \E k \in Cors : \E p \in FewIfLazy(CorPositions(k, CanonToks)) : fin' = [done |-> TRUE, st |-> 0, ck |-> k, cp |-> p]
            /\ UNCHANGED stk
 
 Init == stk = <<>> /\ fin = [done |-> FALSE, st |-> 0, ck |-> "", cp |-> 0] /\ jd = NoJd /\ fam \in 1..Len(Fams)
